@@ -18,7 +18,7 @@ def cases(rng, tier, focus):
 # witness of the recorded effdim finding (known_findings.txt), evaluated on every run
 PINNED = [dict(d=3, kind='multimodal', grid='points', loc='fpoints', cell=True, n=37, g=5, seed=159705),
           dict(d=1, kind='anisotropic', grid='points', loc='fpoints', cell=False, n=50, g=3, seed=988514),
-          dict(d=3, kind='anisotropic', grid='points', loc='fspread', cell=False, n=48, g=6, seed=625225)]       # third witness: indefinite bandwidth at a grid point whose local population is below one sample (small fspread)      # second witness: non-terminating bisection (OverflowError)
+          dict(d=3, kind='anisotropic', grid='points', loc='fspread', cell=False, n=48, g=6, seed=625225)]       # third witness: indefinite bandwidth at a grid point whose OAS coefficient leaves [0, 1] (small fspread, local population below one sample)      # second witness: non-terminating bisection (OverflowError)
 
 def nontrivial(c): return (c['d'], c['kind'], c['grid'], c['loc'], c['cell'], c['seed'] % 3)
 
@@ -87,8 +87,8 @@ def check(c):
     if not ok:
         # which grid points have a bad bandwidth: only points without any assigned descriptor (recorded finding), or others too
         bad = [j for j, h in enumerate(H) if not (np.all(np.isfinite(h)) and np.allclose(h, h.T, atol=1e-10 * max(1.0, np.abs(h).max())) and np.all(np.linalg.eigvalsh((h + h.T) / 2) > 0))]
-        # the local population n_local = flocal * nsamples of the bad grid points, recomputed with the library's own (contract-verified) helpers: below one sample the OAS
-        # coefficient leaves [0, 1] (recorded finding); a bad bandwidth at a grid point with a local population of at least one sample is NOT listed
+        # the OAS coefficient phi of the bad grid points, recomputed with the library's own (contract-verified) helpers and formula: for a local population of about one sample or less
+        # phi leaves [0, 1] and the 'shrunk' covariance is no convex combination any more (recorded finding); a bad bandwidth at a grid point with 0 <= phi <= 1 is NOT listed
         small_only = False
         if c['loc'] == 'fspread' and cell is None and bad:
             from skmatter.neighbors._sparsekde import _covariance as _cov, _local_population as _lp
@@ -98,11 +98,16 @@ def check(c):
             for j in bad:
                 s2 = tune * est.fspread ** 2; wl_, fl = _lp(None, G, G[j], gwt, s2)
                 if s2 < fl: s2 = mind[j]; wl_, fl = _lp(None, G, G[j], gwt, s2)
-                nl.append(fl * len(D)); reached.append(fl > 0 and (fl - wl_[j]) / fl >= 1e-6)
+                n_loc = fl * len(D); reached.append(fl > 0 and (fl - wl_[j]) / fl >= 1e-6)
+                # the OAS coefficient the library computes for this grid point (its own formula, recomputed): a convex shrinkage needs 0 <= phi <= 1
+                with np.errstate(all='ignore'):
+                    S_ = _cov(G, wl_, None); Dd = G.shape[1]; tr_ = np.trace(S_); trc2 = np.trace(S_ ** 2)
+                    phi = ((1 - 2 / Dd) * trc2 + tr_ ** 2) / ((n_loc + 1 - 2 / Dd) * trc2 - tr_ ** 2 / Dd)
+                nl.append(phi)
             # proviso of the property: the localisation must reach at least one other grid point (otherwise the local covariance is that of a single point)
             bad = [j for j, r_ in zip(bad, reached) if r_]; nl = [v for v, r_ in zip(nl, reached) if r_]
-            small_only = bool(bad) and all(v < 1.0 for v in nl)
-        expect(not bad, f'post[C17]:every-bandwidth-matrix-is-finite-symmetric-and-positive-definite{tag}' + ('@only-at-grid-points-with-a-local-population-below-one-sample' if small_only else ''), f"bad bandwidths at grid points {bad}")
+            small_only = bool(bad) and all((not np.isfinite(v)) or v < 0 or v > 1 for v in nl)
+        expect(not bad, f'post[C17]:every-bandwidth-matrix-is-finite-symmetric-and-positive-definite{tag}' + ('@only-at-grid-points-whose-shrinkage-coefficient-leaves-[0,1]' if small_only else ''), f"bad bandwidths at grid points {bad}")
     s = quiet(est.score_samples, Q)
     ref = mixture(est, D, wn, Q, cell)
     expect(np.allclose(s, ref, rtol=1e-8, atol=1e-8), f'post[C17]:score_samples-is-the-log-of-the-documented-mixture{tag}', f"max dev {np.max(np.abs(s - ref))}")
